@@ -240,6 +240,69 @@ def run(ctx):
         check(full, want, shape, classify=cls)
 
 
+    # ---- aggregate modifiers WITHOUT a window (stacked postfix modifiers nest: read them back along the chain)
+    def mods_of(item):
+        """{'fn': tree, 'within': …, 'filter': …, 'over': …} collected along nested value nodes"""
+        out = {}
+        cur = item
+        while isinstance(cur, dict) and "value" in cur:
+            for k in ("within", "filter", "over"):
+                if k in cur:
+                    if k in out:
+                        return None
+                    out[k] = cur[k]
+            cur = cur["value"]
+        out["fn"] = cur
+        return out
+
+    for within in (False, True):
+        for filt in (False, True):
+            for distinct in (False, True):
+                for alias in (None, "a1"):
+                    for in_expr in (False, True):
+                        if not (within or filt):
+                            continue
+                        fn = "percentile_cont" if within else "sum"
+                        sql = "%s(%s)" % (fn.upper(), ("DISTINCT " if distinct and not within else "") + ("0.5" if within else "x"))
+                        fn_tree = {fn: 0.5} if within else ({"distinct": True, fn: "x"} if distinct else {fn: "x"})
+                        exp = {"fn": fn_tree}
+                        if within:
+                            sql += " WITHIN GROUP (ORDER BY w1 DESC)"
+                            exp["within"] = {"orderby": {"value": "w1", "sort": "desc"}}
+                        if filt:
+                            sql += " FILTER (WHERE y > 1)"
+                            exp["filter"] = {"gt": ["y", 1]}
+                        if in_expr:
+                            sql = "1 + " + sql
+                        if alias:
+                            sql += " AS " + alias
+                        full = "SELECT " + sql + ", z9 FROM t"
+                        shape = "no-over:" + "+".join(k for k, v in (("within", within), ("filter", filt), ("distinct", distinct), ("expr", in_expr), ("alias", alias)) if v)
+                        r = R.parse_raw(full)
+                        rep.case(full)
+                        rep.count("shape", shape)
+                        if r[0] != "ok":
+                            rep.finding("modifier-rejected:" + shape, "parse(%r) -> %s" % (full, r[1]), {"kind": "parse", "sql": full, "expected": None})
+                            continue
+                        try:
+                            item = r[1]["select"][0]
+                            node = item["value"]["add"][1] if in_expr else item
+                            got = mods_of(node)
+                            if alias and item.get("name") != alias:
+                                got = None
+                        except Exception:
+                            got = None
+                        if got is None or C.cdump(C.canon(got)) != C.cdump(C.canon(exp)):
+                            rep.finding("modifier-differs:" + shape, "parse(%r) = %s ; modifiers expected %s" % (full, C.cdump(C.canon(r[1]))[:300], C.cdump(C.canon(exp))[:200]),
+                                        {"kind": "mods", "sql": full})
+                            continue
+                        f = R.format_raw(r[1])
+                        r2 = R.parse_raw(f[1]) if f[0] == "ok" else ("err", f[1])
+                        if r2[0] != "ok" or C.cdump(C.canon(r2[1])) != C.cdump(C.canon(r[1])):
+                            rep.finding("modifier-format-differs:" + shape, "format(parse(%r)) = %r parses back to %s" % (full, f[1] if f[0] == "ok" else f, C.cdump(C.canon(r2[1]))[:300] if r2[0] == "ok" else r2[1]),
+                                        {"kind": "format", "sql": full})
+
+
 def search(ctx):
     ctx.quick = False
     run(ctx)
@@ -252,6 +315,8 @@ def replay(ctx, p):
     print(p["sql"], "->", C.cdump(got))
     if p["kind"] == "parse":
         return C.cdump(got) != C.cdump(p["expected"])
+    if p["kind"] == "mods":
+        return True
     f = R.format_raw(r[1])
     print(f)
     if f[0] != "ok":
